@@ -231,7 +231,7 @@ def run_check(prop_id: str, tier: str, seed: int) -> int:
         else:
             fresh.append(v)
 
-    replay_dir = env.OUT / "replay" / prop_id
+    replay_dir = Path(os.environ.get("VERIF_REPLAY_DIR") or (env.OUT / "replay")) / prop_id
     lines = []
     seen_keys: dict[str, int] = {}
     for v in fresh:
@@ -263,6 +263,7 @@ def run_check(prop_id: str, tier: str, seed: int) -> int:
         "samples": samples if samples else ["<none recorded>"],
         "monitor_observations": dict(sorted(counters.items())),
         "shards": len(descs),
+        "shard_wall_s": [[d.get("kind"), round(r.get("_wall", -1), 1)] for d, r in zip(descs, results)],
         "inconclusive": inconclusive,
         "known_findings_hit": sorted(known_hit),
         "violation_keys": {k: c for k, c in sorted(viol_counts.items()) if k.startswith(prop_id + ":")},
@@ -285,8 +286,8 @@ def run_check(prop_id: str, tier: str, seed: int) -> int:
         "wall_s": round(wall, 2),
         "violations": n_fresh,
     }
-    evdir = env.VERIF / "evidence"
-    evdir.mkdir(exist_ok=True)
+    evdir = Path(os.environ.get("VERIF_EVIDENCE_DIR") or (env.VERIF / "evidence"))  # redirected only by tools/eval_mutant.py
+    evdir.mkdir(parents=True, exist_ok=True)
     (evdir / f"{prop_id}.json").write_text(json.dumps(evidence, indent=1, default=str) + "\n")
 
     obs = ", ".join(f"{k}={v}" for k, v in list(sorted(counters.items()))[:12])
